@@ -122,6 +122,14 @@ CHECKS = {
             'reports must be identical for equal random_state and keep lower <= estimate <= upper; scaling cost by a and '
             'response by b (powers of two) must scale iROAS figures by b/a and leave probability and relative lift unchanged.',
             '§5 C07'),
+    'C18': ('reference-model monitor (closed-form posterior, numpy OLS) on the real effect-series report; model-based classifier for raises',
+            'On generated experiment frames with cooldown (both metrics, both cost scenarios, tails, levels, control shapes, '
+            'optional dates outside the three periods) the real estimate_pointwise_and_cumulative_effect must succeed and its '
+            'three series are checked date by date: lower <= estimate <= upper (re-checked independently of the container), '
+            'counterfactual + pointwise = observed treatment series, pre-period pointwise = OLS residuals, cumulative estimate '
+            'and bounds = closed-form incremental effect and posterior quantiles. A container ValueError is accepted as the '
+            'known first-difference-bounds finding only when the closed-form cumulative scale decreases on some day.',
+            '§5 C18'),
 }
 
 NOT_YET = {}
